@@ -1,6 +1,6 @@
 (* AST of reader/traceql/parser/model_v2.go (what participle builds from the grammar tags),
    plus the few pure string functions of the Go standard library that the planners apply to
-   the captured tokens (time.ParseDuration, strconv.ParseFloat + fmt %f, json unquoting).
+   the captured tokens (time.ParseDuration, strconv.ParseFloat + FormatFloat, json unquoting).
 
    The parser itself (participle, lexer_rules v2.go) is not modelled: the correspondence
    harness runs the real parser and hands the resulting tree to the model.  Every captured
@@ -28,7 +28,7 @@ Record value := {
   v_f : string;               (* FVal: Minus? Integer Dot? Integer? *)
   v_str : option string;      (* StrVal.Str: the token including its quotes *)
   v_unq : option string;      (* QuotedString.Unquote(): None = error *)
-  v_ffmt : option string;     (* fmt.Sprintf("%f", strconv.ParseFloat(FVal)): None = error *)
+  v_ffmt : option string;     (* sql.FloatVal.String of strconv.ParseFloat(FVal): None = error *)
   v_dur : option Z            (* time.ParseDuration(TimeVal) in ns: None = error *)
 }.
 Definition val_string (v : value) : string :=       (* Value.String() *)
@@ -49,8 +49,8 @@ with attr_head := HTerm (t : attr_sel) | HParen (e : attr_exp).
 Inductive aggfn := AgCount | AgSum | AgMin | AgMax | AgAvg.
 Record aggregator := {
   g_fn : aggfn; g_attr : string; g_cmp : cmp; g_num : string; g_meas : string;
-  g_ffmt : option string;   (* %f of ParseFloat(Num+Measurement) *)
-  g_durf : option string    (* %f of float64(ParseDuration(Num+Measurement).Nanoseconds()) *)
+  g_ffmt : option string;   (* FloatVal text of ParseFloat(Num+Measurement) *)
+  g_durf : option string    (* FloatVal text of float64(ParseDuration(Num+Measurement).Nanoseconds()) *)
 }.
 Record selector := { sel_attr : option attr_exp; sel_agg : option aggregator }.
 Inductive script := Script (head : selector) (ao : andor) (tail : option script).
@@ -109,16 +109,24 @@ Fixpoint pos_dec' (fuel : nat) (n : N) (acc : string) : string :=
   end.
 Definition str_of_N (n : N) : string := pos_dec' (S (N.to_nat (N.log2 n))) n "".
 
-(* fmt.Sprintf("%f", strconv.ParseFloat(s, 64)) for a decimal token with at most 6 fraction
-   digits and at most 15 significant digits: the nearest float64 then prints back the same
-   digits, padded to six decimals.  Outside that domain: None (the harness value is used). *)
+(* sql.FloatVal.String of strconv.ParseFloat(s, 64), i.e. strconv.FormatFloat(v, 'f', -1, 64): the shortest
+   decimal that parses back to the same float64, without exponent.  For a decimal token with at most 15
+   significant digits that is the token itself in normal form: no leading zeros, no trailing zeros in the
+   fraction, no point when the fraction is empty (two decimals of at most 15 digits never share a float64).
+   Outside that domain: None (the harness value is used). *)
+Fixpoint strip_zeros (fuel : nat) (f : N) (fl : nat) : N * nat :=
+  match fuel, fl with
+  | S k, S fl' => if N.eqb (N.modulo f 10) 0 then strip_zeros k (N.div f 10) fl' else (f, fl)
+  | _, _ => (f, fl)
+  end.
 Definition fmt_f_dec (s : string) : option string :=
   match parse_dec s with
   | Some d =>
-    if (Nat.leb (d_flen d) 6) && (Nat.leb (d_ilen d + d_flen d) 15) then
-      let fr := str_of_N (d_frac d) in
-      let frs := if Nat.eqb (d_flen d) 0 then "" else zeros (d_flen d - String.length fr) ++ fr in
-      Some ((if d_neg d then "-" else "") ++ str_of_N (d_int d) ++ "." ++ frs ++ zeros (6 - d_flen d))
+    if Nat.leb (d_ilen d + d_flen d) 15 then
+      let '(f, fl) := strip_zeros (d_flen d) (d_frac d) (d_flen d) in
+      let fr := str_of_N f in
+      Some ((if d_neg d then "-" else "") ++ str_of_N (d_int d)
+            ++ (if Nat.eqb fl 0 then "" else "." ++ zeros (fl - String.length fr) ++ fr))
     else None
   | None => None
   end.
